@@ -763,6 +763,10 @@ class CTr:
                 return '(Complex.exp %s - 1)' % x
             if f == 'log1p':
                 return '(Complex.log (1 + %s))' % x
+        # module-level helper `_clog1p(w)`: log(1 + w), identified with Complex.log (1 + w) (its body is pinned by the obligation
+        # `Bicomplex._clog1p` below; numerically it differs from numpy's complex log1p only in accuracy)
+        if isinstance(n, ast.Call) and isinstance(n.func, ast.Name) and n.func.id == '_clog1p' and len(n.args) == 1:
+            return '(Complex.log (1 + %s))' % self.e(n.args[0])
         raise Unsupported('complex expression ' + ast.unparse(n)[:80])
 
     def method(self, f):
@@ -959,6 +963,15 @@ variable {C : Type} [Add C] [Sub C] [Mul C] [Neg C]
             raise Unsupported('log1p second component changed')
         u.add('Bicomplex.log1p.z1', 'noncomputable def BC.log1p_z1 (self : BC) : ℂ :=\n  %s' % tr.e(ret.value.args[0]))
         status['Bicomplex.log1p.z1'] = {'ok': True}
+        # the helper the formula calls, if any, must be the pinned text (it is identified with log(1 + w), see CTr.e)
+        if '_clog1p' in ast.unparse(ret.value):
+            helper = [st for st in mod.body if isinstance(st, ast.FunctionDef) and st.name == '_clog1p']
+            body = [st for st in helper[0].body if not (isinstance(st, ast.Expr) and isinstance(st.value, ast.Constant))] if helper else []
+            want = ['a, b = (np.real(w), np.imag(w))', 'return 0.5 * np.log1p(a * (2 + a) + b * b) + 1j * np.arctan2(b, 1 + a)']
+            if [flat(ast.unparse(st)) for st in body] != want:
+                status['Bicomplex._clog1p'] = {'ok': False, 'error': '_clog1p is not the pinned stable log(1 + w): ' + ' ; '.join(flat(ast.unparse(st)) for st in body)[:200]}
+            else:
+                status['Bicomplex._clog1p'] = {'ok': True}
         # mod_c
         m = fs['mod_c']
         src = flat(ast.unparse(m))
